@@ -26,6 +26,7 @@ class Pipe:
         self.emits = []  # SVG elements
         self.elem_k = 0
         self.chain = chain
+        self.mode = None if (chain is None or chain is False) else (1 if chain is True else int(chain))
         ev = new_eval(P, on_call=self.hook)
         self.ev = ev
         st = ev.new_state(module="timeline")
@@ -102,7 +103,7 @@ class Pipe:
                     for i, n in enumerate(nodes.items):
                         if isinstance(n, Opaque):
                             st.heap[(n.text, "currentPos")] = Num.atom("P%d" % i)
-                            st.heap[(n.text, "layerIndex")] = C(1) if self.chain else Num.atom("L%d" % i)
+                            st.heap[(n.text, "layerIndex")] = Num.atom("L%d" % i) if self.mode is None else C(self.mode)
                 return NONE
             if q == "timeline.Timeline.timePos":
                 self.log.append(("timePos", [key(a) for a in args]))
@@ -111,15 +112,17 @@ class Pipe:
             if q == "renderer.Renderer.layout":
                 self.log.append(("layout", [key(a) for a in args]))
                 return None
-            if q == "node.Node.getPathFromRoot" and self.chain:
+            if q == "node.Node.getPathFromRoot" and self.mode == 1:
                 # label in layer 1 with its stub in layer 0
                 n = fv.selfv
                 stub = Opaque("STUB(%s)" % n.text, cls=fv.func.cls, kind="obj")
                 return Seq("list", [stub, n])
             if q == "node.Node.getPathFromRoot":
                 return Seq("list", [fv.selfv])
-            if q == "node.Node.getRoot" and self.chain:
+            if q == "node.Node.getRoot" and self.mode == 1:
                 return Opaque("STUB(%s)" % fv.selfv.text, cls=fv.func.cls, kind="obj")
+            if q == "node.Node.getRoot":
+                return fv.selfv
             if q in ("utils.int2name", "utils.hex2rgbstr", "utils.hex2html", "tex.uni2tex"):
                 return Opaque("%s(%s)" % (fv.func.name, ", ".join(key(a) for a in args)), kind="str")
             if q.startswith("timeline.Timeline.") and q.endswith("Color") and fv.func.name != "colorFunc":
@@ -228,7 +231,7 @@ def pipes(ctx):
 
 
 def pipe(ctx, backend, direction, **kw):
-    k = ("pipe", backend, direction, tuple(sorted(kw.items())))
+    k = ("pipe", backend, direction, repr(sorted(kw.items())))
     return ctx.get(k, lambda: Pipe(ctx, backend, direction, **kw))
 
 
